@@ -295,7 +295,9 @@ def _steps(tier, prop=""):
 
 
 BASE_RULE = ("tour: TLC enumerates every abstract file reachable by <= %d construction steps (messages in pre-order, enums, "
-             "fields of 5-10 scalar/message/enum shapes, groups, maps, oneofs, proto3 optional, defaults, json names, packed, "
+             "fields of 5-10 scalar/message/enum shapes -- message/enum fields and extensions also with `type` omitted --, groups, "
+             "editions group-like fields, group-like fields whose json_name lower-cases to another field's JSON name (both orders), "
+             "maps, oneofs, proto3 optional, defaults, json names, packed, "
              "lazy, reserved and extension ranges, extensions, services, feature overrides) from empty proto2 / proto3 / "
              "edition 2023 (+ file-level overrides) files; ")
 DISTINCT_RULE = ("distinct = (syntax, edition, declaration counts, set of field shapes (type, label, oneof, packed, default), "
@@ -345,7 +347,7 @@ def c35(res, tier, seed):
     t.add(b, "mutants", 160 if tier == "quick" else 30000, seed, want="snap")
     t.add(b, "fuzz", 160 if tier == "quick" else 30000, seed + 1)
     t.finish()
-    res.rule = (BASE_RULE % s + "plus, from each, every applicable one of ~110 invalidity injections (duplicate names/numbers, "
+    res.rule = (BASE_RULE % s + "plus, from each, every applicable one of ~112 invalidity injections (duplicate names/numbers, "
                 "invalid/overlapping ranges, reserved names/numbers, extension-range clashes, malformed maps/groups, oneof "
                 "defects, proto3-forbidden constructs, unresolvable references, packed/enum/presence combinations), under both "
                 "AllowUnresolvable settings: the base must be accepted, the injected file rejected, NewFile must never panic; "
@@ -371,7 +373,8 @@ def c36(res, tier, seed):
         t.add(build_harness(("desc",), tags="verif,protolegacy"), "linked", 1000, seed, want="snap", tags="verif,protolegacy")
     t.finish()
     res.rule = (BASE_RULE % s + "the snapshot of every accessor (incl. ByName/ByNumber/ByJSONName/ByTextName of every element, "
-                "lower-case aliases of group-like fields, Has at every range boundary +-1, absent keys) must equal Views(file); "
+                "lower-case aliases of group-like fields -- which must never shadow a field's exact JSON/text name --, Has at every "
+                "range boundary +-1, absent keys) must equal Views(file); "
                 "driver: every recorded snapshot (linked files, random schemas, accepted mutants) must satisfy ViewLaws; " + DISTINCT_RULE)
     res.notes.append(LINKED_NOTE)
 
